@@ -92,7 +92,10 @@ fn poly_close(a: &Poly, b: &Poly, exact: bool) -> bool {
 }
 
 pub fn check_loaded(lp: &Lp, inst: &v1::Instance, what: &dyn Fn() -> String) -> PResult {
-    let exact = all_dyadic(lp);
+    // every number of the file is held as the double nearest to its text, so single numbers compare exactly; only the
+    // computed end of a ranged row with decimal numbers (one floating-point addition) gets a tolerance
+    let exact = true;
+    let _ = all_dyadic(lp);
     // variables by name
     if inst.decision_variables.len() != lp.cols.len() {
         return fail("C17/variable-count", format!("{} decision variables for {} columns: {}", inst.decision_variables.len(), lp.cols.len(), what()));
@@ -181,7 +184,8 @@ pub fn check_loaded(lp: &Lp, inst: &v1::Instance, what: &dyn Fn() -> String) -> 
         got_c.push((eq, p, c.name.clone()));
     }
     let mut used = vec![false; got_c.len()];
-    for (eq, p, row) in &want_c {
+    for (eq, p, row, computed_constant) in &want_c {
+        let exact = !*computed_constant;
         // prefer a constraint that carries the row name
         let mut hit = None;
         for pass in 0..2 {
@@ -242,7 +246,7 @@ impl Property for C17 {
          oracle = the abstract model: matching by name, exact polynomials, value domains; non-trivial = >=2 row types and >=2 distinct bound specs, or an error case; distinct = sha256(file text)"
     }
     fn required_labels(&self) -> Vec<String> {
-        let mut v: Vec<String> = ["row=E", "row=L", "row=G", "range+@E", "range-@E", "range+@L", "range-@L", "range+@G", "range-@G", "5-field", "objsense-own-line", "objsense-absent", "foreign-objective-name", "obj-constant", "gzip", "tabs", "comments", "integer-marker", "objsense-gap", "row-named-like-range-twin", "numeric-looking-column-name", "numeric-looking-row-name", "explicit-zero-entry", "column-with-only-zero-entries", "comments-that-look-like-content", "gzip-header-with-optional-fields"].iter().map(|s| s.to_string()).collect();
+        let mut v: Vec<String> = ["row=E", "row=L", "row=G", "range+@E", "range-@E", "range+@L", "range-@L", "range+@G", "range-@G", "5-field", "objsense-own-line", "objsense-absent", "foreign-objective-name", "obj-constant", "gzip", "tabs", "comments", "integer-marker", "objsense-gap", "row-named-like-range-twin", "numeric-looking-column-name", "numeric-looking-row-name", "explicit-zero-entry", "column-with-only-zero-entries", "comments-that-look-like-content", "gzip-header-with-optional-fields", "ranged-row-with-decimal-numbers"].iter().map(|s| s.to_string()).collect();
         for b in ["none", "UP", "UP-negative", "LO", "LO+UP", "FX", "MI", "PL", "FR", "BV", "LI", "UI", "MI+UP"] {
             v.push(format!("bound={b}"));
         }
